@@ -143,11 +143,11 @@ class TreeBuilder(ET.TreeBuilder):
     # and optionally an end tag (not mandatory for OFXv1 syntax).
     regex = re.compile(
         r"""<(?P<tag>[A-Z0-9./_ ]+?)>
-                ((<!\[CDATA\[(?P<cdata>.+)\]\]>)|(?P<text>[^<]+))?
+                ((\s*<!\[CDATA\[(?P<cdata>.+?)\]\]>\s*)|(?P<text>[^<]+))?
             (</(?P<closetag>(?P=tag))>)?
             (?P<tail>[^<]+)?
         """,
-        re.VERBOSE,
+        re.VERBOSE | re.DOTALL,
     )
 
     def feed(self, data: str) -> None:
